@@ -22,7 +22,7 @@ from fiddle._src.codegen.auto_config import experimental_top_level_api as ac_cod
 from harness import common, l2, c02, c09, c10
 from harness.common import Failure, Result, Stream, g_list, g_pair, g_N, g_nat
 
-COQ_TARGETS = ["theories/C12Check.vo", "theories/Anchors.vo"]
+COQ_TARGETS = ["theories/C12Check.vo"]
 TRUSTED_BASE = ["libcst (printing of the CST) and Python's compile / import of the emitted module are exercised, not "
                 "modelled; the Coq model covers the shared-nodes-to-variables pass and expression emission at the "
                 "level of a constructor-expression language (Codegen.v); sub-fixture extraction, naming, import "
